@@ -2,46 +2,156 @@ package cctfe
 
 import (
 	"bytes"
+	"context"
 	"encoding/json"
 	"fmt"
+	mrand "math/rand"
+	"net/url"
+	"os"
 	"sync"
 	"testing"
+	"time"
 
 	ct "github.com/google/certificate-transparency-go"
 	"github.com/google/trillian"
+	"google.golang.org/grpc/status"
 
 	"verifharness/ctfeenv"
 	"verifharness/ref"
 	"verifharness/vh"
 )
 
-type reply struct {
-	code int
-	body []byte
-	op   string
-	args map[string]any
+// creq is one HTTP request of a concurrent run.
+type creq struct {
+	id     string
+	op     string
+	fe     string
+	args   map[string]any // the arguments in the specification's terms (the Inv event)
+	method string
+	path   string
+	query  url.Values
+	post   []byte
+	code   int
+	body   []byte
 }
 
-// TestConcurrent drives one real instance from several goroutines (submissions, reads, sequencing) under
-// the race detector, joins the backend's call log (the linearization order) with the HTTP replies, verifies
-// signatures and proofs for real, and writes the history as a trace for CTFETrace.tla.
+// cev is one entry of the real-time event log of a run: Inv / Ret are appended by the client goroutines around the
+// handler call, Call / Sequence by the backend under its own mutex (so their order is the order in which the backend
+// served them), Tick / ClockSet by the driver while nothing is in flight.
+type cev struct {
+	kind  string
+	req   *creq
+	call  ctfeenv.Call
+	fault string // Call: what the backend did to it ("none", a refusal, "lostReply")
+	fe    string
+	t     int
+}
+
+type clog struct {
+	mu  sync.Mutex
+	evs []cev
+}
+
+func (l *clog) add(e cev) { l.mu.Lock(); l.evs = append(l.evs, e); l.mu.Unlock() }
+
+// gate parks the backend call of one request until the driver releases it.
+type gate struct {
+	arrived chan struct{}
+	release chan struct{}
+}
+
+// sched is what the driver tells the backend about individual requests: which RPC to park, which to fail.
+type sched struct {
+	mu      sync.Mutex
+	faults  map[string]string // request id -> fault of its backend call
+	applied map[string]bool   // request id -> the fault took place
+	gates   map[string]*gate
+}
+
+func (s *sched) install(be *ctfeenv.Backend, log *clog) {
+	idOf := func(ctx context.Context) string { id, _ := ctx.Value(ctfeenv.ReqIDKey{}).(string); return id }
+	be.Gate = func(ctx context.Context, method string) {
+		s.mu.Lock()
+		g := s.gates[idOf(ctx)]
+		delete(s.gates, idOf(ctx))
+		s.mu.Unlock()
+		if g != nil {
+			close(g.arrived)
+			<-g.release
+		}
+	}
+	be.Refuse = func(ctx context.Context, method string) error {
+		s.mu.Lock()
+		defer s.mu.Unlock()
+		f := s.faults[idOf(ctx)]
+		if c, ok := rpcFaultCode[f]; ok && f != "lostReply" {
+			s.applied[idOf(ctx)] = true
+			return status.Error(c, "injected: backend refuses the call")
+		}
+		return nil
+	}
+	be.LoseReply = func(ctx context.Context, method string) error {
+		s.mu.Lock()
+		defer s.mu.Unlock()
+		if s.faults[idOf(ctx)] == "lostReply" {
+			s.applied[idOf(ctx)] = true
+			return status.Error(rpcFaultCode["lostReply"], "injected: reply lost")
+		}
+		return nil
+	}
+	be.OnFinish = func(c ctfeenv.Call) {
+		if c.Method == "Sequence" {
+			log.add(cev{kind: "Sequence", call: c})
+			return
+		}
+		s.mu.Lock()
+		f := "none"
+		if s.applied[c.ReqID] {
+			f = s.faults[c.ReqID]
+		}
+		s.mu.Unlock()
+		log.add(cev{kind: "Call", call: c, fault: f})
+	}
+}
+
+var readFaults = []string{"unavailable", "deadline", "exhausted", "internal"}
+
+// TestConcurrent drives the two front end instances of one log from several goroutines (submissions, reads,
+// sequencing, backend calls that are refused or whose reply is lost) under the race detector.  In every round
+// there are also staged overlaps: the backend call of one request is parked inside the backend, further requests
+// (mostly to the same endpoint of the same front end) are sent while it is parked, and only then the parked call
+// is let go - to fail.  The run is logged as Inv / Call / Ret events in real-time order (Call = the backend serving
+// the RPC of a tagged request, in backend order), every reply is verified for real (STH / SCT signatures, proofs
+// with the harness' verifiers, entry bytes) and the history is validated by CTFETrace.tla.
 func TestConcurrent(t *testing.T) {
 	rounds := vh.EnvInt("VERIF_ROUNDS", 6)
 	traces := vh.EnvInt("VERIF_TRACES", 8)
+	episodes := vh.EnvInt("VERIF_EPISODES", 4)
+	prop := os.Getenv("VERIF_PROP")
+	if prop == "" {
+		prop = "C06"
+	}
 	rec, err := vh.NewRecorder("traces.ndjson")
 	if err != nil {
 		t.Fatal(err)
 	}
-	rep := vh.NewReport("cctfe-concurrent", "concurrent clients (4 goroutines of random submissions and reads, one sequencer) on one real ctfe.Instance under -race; backend call order = linearization order; every reply verified (STH / SCT signatures, proofs with the harness' verifiers, entry bytes) and the history validated by CTFETrace.tla; non-trivial = trace with at least one sequencing step overlapping reads")
+	rep := vh.NewReport("cctfe-concurrent", "concurrent clients (4 goroutines of random submissions and reads on two front end instances with different clocks, one sequencer, refused backend calls and lost replies) plus staged overlaps (a backend call parked inside the backend while further requests arrive, then failed) on real ctfe.Instances under -race; Inv / Call / Ret events in real-time order, Call order = backend order = linearization order; every reply verified (STH / SCT signatures, proofs with the harness' verifiers, entry bytes) and the history validated by CTFETrace.tla; non-trivial = trace with a sequencing step overlapping reads and a failed parked call overlapped by another request to the same endpoint")
 	ids := []string{"p1", "p2", "x1", "x2", "x3"}
 	pre := map[string]bool{"p1": true, "p2": true}
+	feNames := []string{"A", "B"}
 	for tr := 0; tr < traces; tr++ {
 		rng := vh.Rand(int64(9000 + tr))
 		w, err := NewWorld(t.TempDir(), ids, pre, []string{"p256", "rsa2048"}[tr%2], rng, ctfeenv.Opts{})
 		if err != nil {
 			t.Fatal(err)
 		}
-		env, be := w.Env, w.Env.Backend
+		be := w.Env.Backend
+		envs := map[string]*ctfeenv.Env{}
+		for _, f := range feNames {
+			if envs[f], err = w.FE(f); err != nil {
+				t.Fatal(err)
+			}
+		}
 		// projection of real leaf bytes back to (certificate id, tick)
 		leafOf := map[string][2]any{}
 		for tick := 0; tick <= rounds; tick++ {
@@ -49,16 +159,97 @@ func TestConcurrent(t *testing.T) {
 				leafOf[string(w.Subs[id].ExpectedLeaf(w.Ms(tick)))] = [2]any{id, tick}
 			}
 		}
-		replies := map[string]*reply{}
-		var mu sync.Mutex
-		rec.Emit(map[string]any{"ev": "Reset", "t": tr})
-		ncallsBefore := 0
-		overlapped := false
-		for r := 0; r < rounds; r++ {
-			if r > 0 {
-				w.SetTick(r)
-				be.Calls = append(be.Calls, ctfeenv.Call{Method: "Tick"}) // no request in flight here
+		log := &clog{}
+		sc := &sched{faults: map[string]string{}, applied: map[string]bool{}, gates: map[string]*gate{}}
+		sc.install(be, log)
+
+		// one request in the specification's terms and as HTTP; kind < 0 draws the endpoint
+		mk := func(g *mrand.Rand, id, fe string, kind int) *creq {
+			rq := &creq{id: id, fe: fe, args: map[string]any{}, method: "GET"}
+			size := be.Size()
+			if kind < 0 {
+				kind = g.Intn(16)
 			}
+			switch kind {
+			case 0, 1, 2, 3:
+				c := ids[g.Intn(len(ids))]
+				s := w.Subs[c]
+				ep := s.Pre
+				if kind == 3 && g.Intn(3) == 0 {
+					ep = !ep // the wrong endpoint for this kind of certificate: rejected without the backend
+				}
+				rq.op, rq.method, rq.args["cert"] = "AddChain", "POST", c
+				rq.args["ep"] = map[bool]string{true: "add-pre-chain", false: "add-chain"}[ep]
+				rq.path = map[bool]string{true: ct.AddPreChainPath, false: ct.AddChainPath}[ep]
+				rq.post, _ = json.Marshal(ct.AddChainRequest{Chain: s.Chain})
+			case 4, 5, 6:
+				rq.op, rq.path = "GetSTH", ct.GetSTHPath
+			case 7, 8:
+				s2 := g.Intn(size + 2)
+				f := g.Intn(s2 + 1) // 0 (answered without the backend) .. s2
+				if g.Intn(8) == 0 {
+					f, s2 = s2+1, f // first > second
+				}
+				rq.op, rq.args["first"], rq.args["second"] = "GetConsistency", f, s2
+				rq.path, rq.query = ct.GetSTHConsistencyPath, q("first", f, "second", s2)
+			case 9, 10:
+				c := ids[g.Intn(len(ids))]
+				tick := g.Intn(rounds + 1)
+				n := 1 + g.Intn(size+2)
+				rq.op, rq.args["cert"], rq.args["ts"], rq.args["size"] = "GetProofByHash", c, tick, n
+				rq.path, rq.query = ct.GetProofByHashPath, q("hash", w.Subs[c].LeafHashAt(w.Ms(tick)), "tree_size", n)
+			case 11, 12:
+				a := g.Intn(size + 2)
+				b := a + g.Intn(3)
+				rq.op, rq.args["start"], rq.args["end"] = "GetEntries", a, b
+				rq.path, rq.query = ct.GetEntriesPath, q("start", a, "end", b)
+			case 13, 14:
+				n := 1 + g.Intn(size+2)
+				i := g.Intn(n)
+				rq.op, rq.args["index"], rq.args["size"] = "GetEntryAndProof", i, n
+				rq.path, rq.query = ct.GetEntryAndProofPath, q("leaf_index", i, "tree_size", n)
+			default:
+				rq.op, rq.path = "GetRoots", ct.GetRootsPath
+			}
+			return rq
+		}
+		perform := func(rq *creq) {
+			log.add(cev{kind: "Inv", req: rq})
+			rq.code, rq.body, _ = envs[rq.fe].DoTagged(rq.id, rq.method, rq.path, rq.query, rq.post)
+			log.add(cev{kind: "Ret", req: rq})
+			if rq.code == 0 {
+				rep.Violate(prop+":concurrent:panic:"+rq.op, "panic in a concurrent "+rq.op, nil)
+			}
+		}
+		setFault := func(id, f string) { sc.mu.Lock(); sc.faults[id] = f; sc.mu.Unlock() }
+		faultFor := func(g *mrand.Rand, op string) string {
+			if op == "AddChain" && g.Intn(3) == 0 {
+				return "lostReply"
+			}
+			return readFaults[g.Intn(len(readFaults))]
+		}
+
+		rec.Emit(map[string]any{"ev": "Reset", "t": tr})
+		overlapSeq, overlapFault := false, false
+		clocks := map[string]int{"A": 0, "B": 0}
+		for r := 0; r < rounds; r++ {
+			// nothing is in flight here: the backend's clock runs on, the front ends' clocks are set - A's runs
+			// with the backend's, B's reads anything (behind, ahead, stepped back since the last round)
+			if r > 0 {
+				log.add(cev{kind: "Tick"})
+			}
+			for _, f := range feNames {
+				tick := r
+				if f == "B" {
+					tick = rng.Intn(rounds + 1)
+				}
+				if tick != clocks[f] {
+					w.SetTickFE(envs[f], tick)
+					clocks[f] = tick
+					log.add(cev{kind: "ClockSet", fe: f, t: tick})
+				}
+			}
+			// phase 1: free-running clients and the sequencer
 			var wg sync.WaitGroup
 			for g := 0; g < 4; g++ {
 				wg.Add(1)
@@ -66,55 +257,11 @@ func TestConcurrent(t *testing.T) {
 					defer wg.Done()
 					grng := vh.Rand(int64(tr*1000 + r*10 + g))
 					for k := 0; k < 6; k++ {
-						id := fmt.Sprintf("t%d-r%d-g%d-k%d", tr, r, g, k)
-						rp := &reply{args: map[string]any{}}
-						size := be.Size()
-						switch grng.Intn(7) {
-						case 0, 1:
-							c := ids[grng.Intn(len(ids))]
-							s := w.Subs[c]
-							body, _ := json.Marshal(ct.AddChainRequest{Chain: s.Chain})
-							path := ct.AddChainPath
-							if s.Pre {
-								path = ct.AddPreChainPath
-							}
-							rp.op, rp.args["cert"] = "AddChain", c
-							rp.args["ep"] = map[bool]string{true: "add-pre-chain", false: "add-chain"}[s.Pre]
-							rp.code, rp.body, _ = env.DoTagged(id, "POST", path, nil, body)
-						case 2:
-							rp.op = "GetSTH"
-							rp.code, rp.body, _ = env.DoTagged(id, "GET", ct.GetSTHPath, nil, nil)
-						case 3:
-							if size < 1 {
-								continue
-							}
-							s2 := 1 + grng.Intn(size+1)
-							f := 1 + grng.Intn(s2)
-							rp.op, rp.args["first"], rp.args["second"] = "GetConsistency", f, s2
-							rp.code, rp.body, _ = env.DoTagged(id, "GET", ct.GetSTHConsistencyPath, q("first", f, "second", s2), nil)
-						case 4:
-							c := ids[grng.Intn(len(ids))]
-							tick := grng.Intn(r + 1)
-							n := 1 + grng.Intn(size+2)
-							rp.op, rp.args["cert"], rp.args["ts"], rp.args["size"] = "GetProofByHash", c, tick, n
-							rp.code, rp.body, _ = env.DoTagged(id, "GET", ct.GetProofByHashPath, q("hash", w.Subs[c].LeafHashAt(w.Ms(tick)), "tree_size", n), nil)
-						case 5:
-							a := grng.Intn(size + 2)
-							b := a + grng.Intn(3)
-							rp.op, rp.args["start"], rp.args["end"] = "GetEntries", a, b
-							rp.code, rp.body, _ = env.DoTagged(id, "GET", ct.GetEntriesPath, q("start", a, "end", b), nil)
-						default:
-							n := 1 + grng.Intn(size+2)
-							i := grng.Intn(n)
-							rp.op, rp.args["index"], rp.args["size"] = "GetEntryAndProof", i, n
-							rp.code, rp.body, _ = env.DoTagged(id, "GET", ct.GetEntryAndProofPath, q("leaf_index", i, "tree_size", n), nil)
+						rq := mk(grng, fmt.Sprintf("t%d-r%d-g%d-k%d", tr, r, g, k), feNames[g/2], -1)
+						if grng.Intn(8) == 0 {
+							setFault(rq.id, faultFor(grng, rq.op))
 						}
-						if rp.code == 0 {
-							rep.Violate("C06:concurrent:panic:"+rp.op, "panic in a concurrent "+rp.op, nil)
-						}
-						mu.Lock()
-						replies[id] = rp
-						mu.Unlock()
+						perform(rq)
 					}
 				}(g)
 			}
@@ -129,20 +276,100 @@ func TestConcurrent(t *testing.T) {
 				}
 			}()
 			wg.Wait()
-			_ = ncallsBefore
-		}
-		// join the backend's order with the replies and emit the trace
-		calls := be.CallsSince(0)
-		for i, c := range calls {
-			if c.Method == "Sequence" && i > 0 && i+1 < len(calls) && calls[i-1].Method != "Tick" && calls[i+1].Method != "Tick" {
-				overlapped = true
+			// phase 2: staged overlaps.  The backend call of request A is parked inside the backend; while it is
+			// parked, further requests are sent (two out of three to the same endpoint of the same front end, half of those the very
+			// same request) and
+			// the tree may grow; then A's call is let go and (three times out of four) fails.
+			erng := vh.Rand(int64(tr*131 + r))
+			for e := 0; e < episodes; e++ {
+				fa := feNames[erng.Intn(2)]
+				kindA := []int{4, 4, 4, 0, 7, 9, 11, 13}[erng.Intn(8)]
+				a := mk(erng, fmt.Sprintf("t%d-r%d-e%d-A", tr, r, e), fa, kindA)
+				if erng.Intn(4) > 0 {
+					setFault(a.id, faultFor(erng, a.op))
+				}
+				g := &gate{arrived: make(chan struct{}), release: make(chan struct{})}
+				sc.mu.Lock()
+				sc.gates[a.id] = g
+				sc.mu.Unlock()
+				adone := make(chan struct{})
+				go func() { perform(a); close(adone) }()
+				parked := false
+				select {
+				case <-g.arrived:
+					parked = true
+				case <-adone: // answered without the backend
+				}
+				var others []*creq
+				bdone := make(chan struct{})
+				nb := 1 + erng.Intn(3)
+				var bwg sync.WaitGroup
+				for k := 0; k < nb; k++ {
+					fb, kindB := fa, kindA
+					if erng.Intn(3) == 0 {
+						fb, kindB = feNames[erng.Intn(2)], -1
+					}
+					b := mk(erng, fmt.Sprintf("t%d-r%d-e%d-B%d", tr, r, e, k), fb, kindB)
+					if fb == fa && kindB == kindA && erng.Intn(2) == 0 {
+						// the very same request as the parked one (what a front end might be tempted to answer together)
+						b.op, b.args, b.method, b.path, b.query, b.post = a.op, a.args, a.method, a.path, a.query, a.post
+					}
+					others = append(others, b)
+					bwg.Add(1)
+					go func() { defer bwg.Done(); perform(b) }()
+				}
+				go func() { bwg.Wait(); close(bdone) }()
+				if parked && erng.Intn(2) == 0 {
+					if n := be.Queued(); n > 0 {
+						be.Sequence(1+erng.Intn(n), w.Nanos(r, 0), nil)
+					}
+				}
+				// The others either finish on their own (they do on the unchanged code) or are stuck behind the
+				// parked call.  This bounded wait is a scheduling aid, not a judgment: whichever way it ends, the
+				// recorded history is judged by the specification alone.
+				select {
+				case <-bdone:
+				case <-time.After(100 * time.Millisecond):
+				}
+				close(g.release)
+				<-adone
+				<-bdone
+				sc.mu.Lock()
+				failed := sc.applied[a.id]
+				delete(sc.gates, a.id)
+				sc.mu.Unlock()
+				if parked && failed {
+					for _, b := range others {
+						if b.op == a.op && b.fe == a.fe {
+							overlapFault = true
+						}
+					}
+				}
 			}
-			switch c.Method {
+		}
+		be.Gate, be.Refuse, be.LoseReply, be.OnFinish = nil, nil, nil, nil
+
+		// emit the trace: real bytes projected back onto the specification's values, replies verified for real
+		evs := log.evs
+		inflight := 0
+		for _, e := range evs {
+			switch e.kind {
+			case "Inv":
+				inflight++
+			case "Ret":
+				inflight--
+			case "Sequence":
+				if inflight > 0 {
+					overlapSeq = true
+				}
+			}
+			switch e.kind {
 			case "Tick":
 				rec.Emit(map[string]any{"ev": "Tick"})
-				continue
+			case "ClockSet":
+				rec.Emit(map[string]any{"ev": "ClockSet", "fe": e.fe, "t": e.t})
 			case "Sequence":
-				rq := c.Req.(*trillian.GetLeavesByRangeRequest)
+				rq := e.call.Req.(*trillian.GetLeavesByRangeRequest)
 				var rem uint64
 				for _, p := range be.Roots {
 					if p.Size == int(rq.StartIndex) {
@@ -150,107 +377,24 @@ func TestConcurrent(t *testing.T) {
 					}
 				}
 				rec.Emit(map[string]any{"ev": "Sequence", "k": rq.Count, "rem": rem})
-				continue
-			}
-			rp := replies[c.ReqID]
-			if rp == nil {
-				rep.Violate("C06:concurrent:untagged-call", "a backend call could not be attributed to a request: "+c.Method, nil)
-				continue
-			}
-			ev := map[string]any{"ev": rp.op, "status": rp.code}
-			for k, v := range rp.args {
-				ev[k] = v
-			}
-			bad := func(fp, what string) {
-				rep.Violate("C06:concurrent:"+fp, what, map[string]any{"op": rp.op, "args": rp.args, "status": rp.code})
-			}
-			switch rp.op {
-			case "AddChain":
-				ev["ts"] = -1
-				if rp.code == 200 {
-					var a ct.AddChainResponse
-					if json.Unmarshal(rp.body, &a) != nil {
-						bad("addchain-json", "add-chain reply is not JSON")
-						continue
-					}
-					sub := w.Subs[rp.args["cert"].(string)]
-					tick := int((a.Timestamp - w.Ms(0)) / 1000)
-					ev["ts"] = tick
-					if msg := w.CheckSCT(sub, &a, w.Ms(tick)); msg != "" {
-						bad("sct:"+short(msg), msg)
-					}
+			case "Inv":
+				ev := map[string]any{"ev": "Inv", "id": e.req.id, "op": e.req.op, "fe": e.req.fe}
+				for k, v := range e.req.args {
+					ev[k] = v
 				}
-			case "GetSTH":
-				var s STH
-				if rp.code != 200 || json.Unmarshal(rp.body, &s) != nil {
-					bad("getsth-status", fmt.Sprintf("get-sth answered %d", rp.code))
+				rec.Emit(ev)
+			case "Call":
+				if e.call.ReqID == "" {
+					rep.Violate(prop+":concurrent:untagged-call", "a backend call could not be attributed to a request: "+e.call.Method, nil)
 					continue
 				}
-				if err := ref.Verify(env.LogKey.Public(), ref.STHSignatureInput(s.Timestamp, s.TreeSize, s.Root), s.Sig); err != nil {
-					bad("sth-signature", "served STH does not verify: "+err.Error())
-				}
-				if int(s.TreeSize) > be.Size() || !bytes.Equal(s.Root, be.Tree().Root(int(s.TreeSize))) {
-					bad("sth-root", "served STH root is not the root of the backend's tree at that size")
-				}
-				ev["size"], ev["ts"] = s.TreeSize, int((s.Timestamp-w.Ms(0))/1000)
-			case "GetConsistency":
-				if rp.code == 200 {
-					var r ct.GetSTHConsistencyResponse
-					f, s2 := rp.args["first"].(int), rp.args["second"].(int)
-					if json.Unmarshal(rp.body, &r) != nil || ref.VerifyConsistency(uint64(f), uint64(s2), be.Tree().Root(f), be.Tree().Root(s2), r.Consistency) != nil {
-						bad("consistency-invalid", fmt.Sprintf("served consistency proof (%d,%d) does not verify", f, s2))
-					}
-				}
-			case "GetProofByHash":
-				ev["index"] = -1
-				if rp.code == 200 {
-					var r ct.GetProofByHashResponse
-					n := rp.args["size"].(int)
-					h := w.Subs[rp.args["cert"].(string)].LeafHashAt(w.Ms(rp.args["ts"].(int)))
-					if json.Unmarshal(rp.body, &r) != nil || ref.VerifyInclusion(uint64(r.LeafIndex), uint64(n), h, r.AuditPath, be.Tree().Root(n)) != nil {
-						bad("inclusion-invalid", "served audit path does not verify")
-					}
-					ev["index"] = r.LeafIndex
-				}
-			case "GetEntries":
-				ents := []map[string]any{}
-				if rp.code == 200 {
-					var r ct.GetEntriesResponse
-					if json.Unmarshal(rp.body, &r) != nil {
-						bad("entries-json", "get-entries reply is not JSON")
-						continue
-					}
-					for i, e := range r.Entries {
-						p, ok := leafOf[string(e.LeafInput)]
-						if !ok {
-							bad("entries-unknown-leaf", "get-entries served a leaf that is not the entry of any submission")
-							p = [2]any{"?", -1}
-						} else if !bytes.Equal(e.ExtraData, w.Subs[p[0].(string)].ExpectedExtra()) {
-							bad("entries-extra", fmt.Sprintf("entry %d: extra_data is not the submitted chain", rp.args["start"].(int)+i))
-						}
-						ents = append(ents, map[string]any{"cert": p[0], "ts": p[1]})
-					}
-				}
-				ev["entries"] = ents
-			case "GetEntryAndProof":
-				ev["entry"] = map[string]any{"cert": "?", "ts": -1}
-				if rp.code == 200 {
-					var r ct.GetEntryAndProofResponse
-					i, n := rp.args["index"].(int), rp.args["size"].(int)
-					if json.Unmarshal(rp.body, &r) != nil || ref.VerifyInclusion(uint64(i), uint64(n), ref.LeafHash(r.LeafInput), r.AuditPath, be.Tree().Root(n)) != nil {
-						bad("entryproof-invalid", "get-entry-and-proof served an audit path that does not verify")
-					}
-					if p, ok := leafOf[string(r.LeafInput)]; ok {
-						ev["entry"] = map[string]any{"cert": p[0], "ts": p[1]}
-					} else {
-						bad("entryproof-unknown-leaf", "get-entry-and-proof served a leaf that is not the entry of any submission")
-					}
-				}
+				rec.Emit(map[string]any{"ev": "Call", "id": e.call.ReqID, "method": e.call.Method, "fault": e.fault})
+			case "Ret":
+				rec.Emit(retEvent(w, be, envs[e.req.fe], e.req, leafOf, rep, prop))
 			}
-			rec.Emit(ev)
 		}
 		key := ""
-		if overlapped {
+		if overlapSeq && overlapFault {
 			key = fmt.Sprintf("trace-%d", tr)
 		}
 		rep.Eval(key)
@@ -262,4 +406,118 @@ func TestConcurrent(t *testing.T) {
 	if err := rep.Write(); err != nil {
 		t.Fatal(err)
 	}
+}
+
+// tickOf projects a millisecond timestamp back onto a tick; -2 if it is not the reading of any clock of the run.
+func (w *World) tickOf(ms uint64) int {
+	if ms < w.Ms(0) || (ms-w.Ms(0))%1000 != 0 || (ms-w.Ms(0))/1000 > 1000 {
+		return -2
+	}
+	return int((ms - w.Ms(0)) / 1000)
+}
+
+// retEvent verifies one reply for real and renders it as the Ret event of the trace.
+func retEvent(w *World, be *ctfeenv.Backend, env *ctfeenv.Env, rp *creq, leafOf map[string][2]any, rep *vh.Report, prop string) map[string]any {
+	ev := map[string]any{"ev": "Ret", "id": rp.id, "op": rp.op, "status": rp.code}
+	bad := func(fp, what string) {
+		rep.Violate(prop+":concurrent:"+fp, what, map[string]any{"op": rp.op, "args": rp.args, "status": rp.code, "fe": rp.fe})
+	}
+	switch rp.op {
+	case "AddChain":
+		ev["ts"] = -1
+		if rp.code == 200 {
+			var a ct.AddChainResponse
+			if json.Unmarshal(rp.body, &a) != nil {
+				bad("addchain-json", "add-chain reply is not JSON")
+				return ev
+			}
+			sub := w.Subs[rp.args["cert"].(string)]
+			ev["ts"] = w.tickOf(a.Timestamp)
+			if msg := w.CheckSCT(sub, &a, a.Timestamp); msg != "" {
+				bad("sct:"+short(msg), msg)
+			}
+		}
+	case "GetSTH":
+		ev["size"], ev["ts"] = -1, -1
+		if rp.code == 200 {
+			var s STH
+			if json.Unmarshal(rp.body, &s) != nil {
+				bad("getsth-json", "get-sth reply is not JSON")
+				return ev
+			}
+			if err := ref.Verify(env.LogKey.Public(), ref.STHSignatureInput(s.Timestamp, s.TreeSize, s.Root), s.Sig); err != nil {
+				bad("sth-signature", "served STH does not verify: "+err.Error())
+			}
+			if int(s.TreeSize) > be.Size() || !bytes.Equal(s.Root, be.Tree().Root(int(s.TreeSize))) {
+				bad("sth-root", "served STH root is not the root of the backend's tree at that size")
+			}
+			ev["size"], ev["ts"] = s.TreeSize, w.tickOf(s.Timestamp)
+		}
+	case "GetConsistency":
+		if rp.code == 200 {
+			var r ct.GetSTHConsistencyResponse
+			f, s2 := rp.args["first"].(int), rp.args["second"].(int)
+			if json.Unmarshal(rp.body, &r) != nil {
+				bad("consistency-json", "get-sth-consistency reply is not JSON")
+			} else if f == 0 {
+				if len(r.Consistency) != 0 {
+					bad("consistency-first0-nonempty", "non-empty proof from the empty tree")
+				}
+			} else if s2 > be.Size() || ref.VerifyConsistency(uint64(f), uint64(s2), be.Tree().Root(f), be.Tree().Root(s2), r.Consistency) != nil {
+				bad("consistency-invalid", fmt.Sprintf("served consistency proof (%d,%d) does not verify", f, s2))
+			}
+		}
+	case "GetProofByHash":
+		ev["index"] = -1
+		if rp.code == 200 {
+			var r ct.GetProofByHashResponse
+			n := rp.args["size"].(int)
+			h := w.Subs[rp.args["cert"].(string)].LeafHashAt(w.Ms(rp.args["ts"].(int)))
+			if json.Unmarshal(rp.body, &r) != nil || n > be.Size() || ref.VerifyInclusion(uint64(r.LeafIndex), uint64(n), h, r.AuditPath, be.Tree().Root(n)) != nil {
+				bad("inclusion-invalid", "served audit path does not verify")
+			}
+			ev["index"] = r.LeafIndex
+		}
+	case "GetEntries":
+		ents := []map[string]any{}
+		if rp.code == 200 {
+			var r ct.GetEntriesResponse
+			if json.Unmarshal(rp.body, &r) != nil {
+				bad("entries-json", "get-entries reply is not JSON")
+				ev["entries"] = ents
+				return ev
+			}
+			for i, e := range r.Entries {
+				p, ok := leafOf[string(e.LeafInput)]
+				if !ok {
+					bad("entries-unknown-leaf", "get-entries served a leaf that is not the entry of any submission")
+					p = [2]any{"?", -1}
+				} else if !bytes.Equal(e.ExtraData, w.Subs[p[0].(string)].ExpectedExtra()) {
+					bad("entries-extra", fmt.Sprintf("entry %d: extra_data is not the submitted chain", rp.args["start"].(int)+i))
+				}
+				ents = append(ents, map[string]any{"cert": p[0], "ts": p[1]})
+			}
+		}
+		ev["entries"] = ents
+	case "GetEntryAndProof":
+		ev["entry"] = map[string]any{"cert": "?", "ts": -1}
+		if rp.code == 200 {
+			var r ct.GetEntryAndProofResponse
+			i, n := rp.args["index"].(int), rp.args["size"].(int)
+			if json.Unmarshal(rp.body, &r) != nil || n > be.Size() || ref.VerifyInclusion(uint64(i), uint64(n), ref.LeafHash(r.LeafInput), r.AuditPath, be.Tree().Root(n)) != nil {
+				bad("entryproof-invalid", "get-entry-and-proof served an audit path that does not verify")
+			}
+			if p, ok := leafOf[string(r.LeafInput)]; ok {
+				ev["entry"] = map[string]any{"cert": p[0], "ts": p[1]}
+			} else {
+				bad("entryproof-unknown-leaf", "get-entry-and-proof served a leaf that is not the entry of any submission")
+			}
+		}
+	case "GetRoots":
+		var r ct.GetRootsResponse
+		if rp.code != 200 || json.Unmarshal(rp.body, &r) != nil || len(r.Certificates) != 1 {
+			bad("getroots", fmt.Sprintf("get-roots: %d", rp.code))
+		}
+	}
+	return ev
 }
